@@ -347,7 +347,7 @@ def run(ctx):
     from quantecon.game_theory.vertex_enumeration import _BestResponsePolytope, _ints_arr_to_bits
     thorough = ctx.tier == "thorough"
     rng = ctx.rng
-    ctx.proofs()
+    ctx.proofs(["C05/Props.v", "C04/PropsTie.v"])
     TOL = frac(Player([1.0, 2.0]).tol)
     smax = 5 if thorough else 4
     shapes = [(m, n) for m in range(1, smax + 1) for n in range(1, smax + 1)]
